@@ -140,16 +140,15 @@ func (s lstate) coqFinal() string {
 type sideA struct {
 	ls []*lists.List[int]
 	hs []*lists.Element[int]
+	ix map[*lists.Element[int]]int
 }
 
 func (a *sideA) idx(e *lists.Element[int]) int {
 	if e == nil {
 		return -1
 	}
-	for i, x := range a.hs {
-		if x == e {
-			return i
-		}
+	if i, ok := a.ix[e]; ok {
+		return i
 	}
 	return -2
 }
@@ -161,6 +160,10 @@ func (a *sideA) add(e *lists.Element[int]) int {
 	if i := a.idx(e); i >= 0 {
 		return i
 	}
+	if a.ix == nil {
+		a.ix = map[*lists.Element[int]]int{}
+	}
+	a.ix[e] = len(a.hs)
 	a.hs = append(a.hs, e)
 	return len(a.hs) - 1
 }
@@ -267,16 +270,15 @@ func (a *sideA) observe() lstate {
 type sideB struct {
 	ls []*stdlist.List
 	hs []*stdlist.Element
+	ix map[*stdlist.Element]int
 }
 
 func (a *sideB) idx(e *stdlist.Element) int {
 	if e == nil {
 		return -1
 	}
-	for i, x := range a.hs {
-		if x == e {
-			return i
-		}
+	if i, ok := a.ix[e]; ok {
+		return i
 	}
 	return -2
 }
@@ -288,6 +290,10 @@ func (a *sideB) add(e *stdlist.Element) int {
 	if i := a.idx(e); i >= 0 {
 		return i
 	}
+	if a.ix == nil {
+		a.ix = map[*stdlist.Element]int{}
+	}
+	a.ix[e] = len(a.hs)
 	a.hs = append(a.hs, e)
 	return len(a.hs) - 1
 }
@@ -722,6 +728,10 @@ func retEq(a, b ret) bool {
 }
 
 func execCase(c *core.Ctx, cs Case, emit bool) {
+	if cs.Kind == "biglist" || cs.Kind == "bigring" {
+		execBig(c, cs)
+		return
+	}
 	c.Begin(cs)
 	c.Count("kind_" + cs.Kind)
 	c.CountN("ops", len(cs.Ops))
@@ -960,6 +970,7 @@ func run(c *core.Ctx) {
 	for i := c.N(500, 8000, 20000); i > 0; i-- {
 		execCase(c, Case{"ring", genRing(c.Rng, 3+c.Rng.Size(c.N(16, 40, 60)))}, true)
 	}
+	runBig(c)
 }
 
 // genList builds a history while running it on container/list, so that handles can be chosen by
